@@ -57,6 +57,10 @@ func genValue(t *rapid.T, kind StoreKind, extreme, inexactFloats bool) string {
 		if rapid.IntRange(0, 9).Draw(t, "intNeg") == 0 {
 			return strconv.Itoa(-rapid.IntRange(1, 9).Draw(t, "ineg"))
 		}
+		if rapid.IntRange(0, 9).Draw(t, "intPadded") == 0 {
+			// a fixed-width counter: decimal digits with leading zeros (010 is ten)
+			return rapid.SampledFrom([]string{"010", "025", "007", "008", "0100", "09", "00"}).Draw(t, "ipadded")
+		}
 		return strconv.Itoa(rapid.IntRange(0, 12).Draw(t, "ival"))
 	case KFloat:
 		if inexactFloats && rapid.IntRange(0, 2).Draw(t, "floatInexact") == 0 {
@@ -577,6 +581,14 @@ func (c *GenCtx) GenBool(t *rapid.T, depth int) *Node {
 		if rapid.Bool().Draw(t, "betweenNumeric") {
 			lo := rapid.IntRange(0, 8).Draw(t, "btLo")
 			hi := lo + rapid.IntRange(1, 6).Draw(t, "btSpan")
+			if rapid.IntRange(0, 3).Draw(t, "betweenComputedBounds") == 0 {
+				// bounds that are computed: the lower one starts with a
+				// parenthesised sum ((a + b) * 1 and (a + b) - 0 are a + b)
+				a := rapid.IntRange(0, lo).Draw(t, "btLoPart")
+				lower := Bin(rapid.SampledFrom([]string{"*", "/"}).Draw(t, "btLoOp"), Bin("+", Int(int64(a)), Int(int64(lo-a))), Int(1))
+				upper := Bin("+", Int(int64(hi)), Int(0))
+				return Between(c.GenInt(t, depth-1), lower, upper)
+			}
 			return Between(c.GenInt(t, depth-1), Int(int64(lo)), Int(int64(hi)))
 		}
 		a, b := c.textLiteral(t), c.textLiteral(t)
